@@ -201,7 +201,8 @@ class BirthDeath(Distribution):
                 .sum(-1)
             )
 
-        if serially_sampled:
+        # tips at the present are sampled through psi when rho is zero
+        if serially_sampled or torch.any(self.rho == 0.0):
             log_p += torch.where(
                 is_rho_tip,
                 torch.zeros_like(y),
